@@ -90,11 +90,21 @@ def tool(name):
     return os.path.join(VERIF, 'build', name)
 
 
+def pkg_of(d):
+    return d.get('group') or d['id']
+
+
 def make_scratch(work, decls, name='scratch'):
     root = work.path(name)
     declgen.write_module(root, repo=REPO)
+    groups = {}
     for d in decls:
-        declgen.write_pkg(d, os.path.join(root, d['id']))
+        if d.get('group'):
+            groups.setdefault(d['group'], []).append(d)
+        else:
+            declgen.write_pkg(d, os.path.join(root, d['id']))
+    for g, ds_ in groups.items():
+        declgen.write_group(ds_, os.path.join(root, g))
     return root
 
 
@@ -110,11 +120,14 @@ def pmap(fn, items, workers=None):
 
 
 def generate_all(cli, root, decls):
-    """Run the generator once per declaration package; returns {id: (rc, stderr)}."""
-    def one(d):
-        rc, out, err = run_generator(cli, os.path.join(root, d['id']))
-        return d['id'], (rc, err)
-    return dict(pmap(one, decls))
+    """Run the generator once per package; returns {declaration id: (rc, stderr)}."""
+    pkgs = sorted({pkg_of(d) for d in decls})
+
+    def one(p):
+        rc, out, err = run_generator(cli, os.path.join(root, p))
+        return p, (rc, err)
+    res = dict(pmap(one, pkgs))
+    return {d['id']: res[pkg_of(d)] for d in decls}
 
 
 def drivergen_all(root, ids):
@@ -164,16 +177,19 @@ def build_drivers(root, ids, race=True):
 
 
 def run_driver(root, i, modes='none,fail,cancel,failcancel', maxruns=200, seed=1, gomaxprocs=None, timeout=600,
-               path=None, reps=None, out=None):
-    out = out or os.path.join(root, i, 'trace-%s.ndjson' % (gomaxprocs or 'd'))
+               path=None, reps=None, out=None, decl=None):
+    """i = package (binary) name; decl = which injector of a multi-declaration package to drive"""
+    out = out or os.path.join(root, i, 'trace-%s-%s.ndjson' % (decl or 'x', gomaxprocs or 'd'))
     if os.path.exists(out):
         os.remove(out)
     env = dict(os.environ)
     env.update({'VERIF_OUT': out, 'VERIF_MODES': modes, 'VERIF_MAXRUNS': str(maxruns), 'VERIF_SEED': str(seed),
-                'GORACE': 'halt_on_error=0 exitcode=66 log_path=%s' % os.path.join(root, i, 'race'),
+                'GORACE': 'halt_on_error=0 exitcode=66 log_path=%s' % os.path.join(root, i, 'race-%s' % (decl or 'x')),
                 'GOTRACEBACK': 'all'})
     if gomaxprocs:
         env['GOMAXPROCS'] = str(gomaxprocs)
+    if decl:
+        env['VERIF_DECL'] = decl
     if path is not None:
         env['VERIF_PATH'] = ','.join(path)
     if reps:
